@@ -1,4 +1,6 @@
 """Families U (unary element-wise), B (binary element-wise + operators) and R (reductions)."""
+import numpy as onp
+
 from .. import alphabets as A
 from ..walk import Case
 from .base import spec
@@ -141,3 +143,15 @@ def s_cumsum(ch, T):
     expr = ("np.cumsum(x%s)" % ((", " + a) if a else "")) if form == "func" else "x.cumsum(%s)" % a
     return Case("cumsum", expr, dict(x=T.arr(shape, kind=kind)), dict(rank=nd, axis_sign=A.sign_of(axis), form=form, kind=kind,
                                                                     axis=("none" if axis is None else ("zero" if axis == 0 else "nonzero"))), family="R")
+
+
+@spec("power_special_exponent", "B")
+def s_power_special(ch, T):
+    """Exponents that invite fast paths (2, 1, 3, 0.5, -1), given as Python / NumPy scalars, 0-d or full arrays."""
+    shape = ch.choose("shape", [(), (2,), (2, 2)])
+    kx = ch.choose("kind_x", T.kinds_for(shape))
+    yv = ch.choose("exponent", [2.0, 1.0, 3.0, 0.5, -1.0])
+    ky = ch.choose("kind_y", ["py", "np", "0d", "arr"])
+    form = ch.choose("form", ["np.power(x, y)", "x ** y"])
+    y = {"py": float(yv), "np": onp.float64(yv), "0d": onp.array(yv), "arr": onp.full(shape if shape else (1,), yv)}[ky]
+    return Case("power", form, dict(x=T.arr(shape, 0.5, 1.7, kx), y=y), dict(exponent=yv, kinds=kx + "," + ky, form="op" if form[0] == "x" else "func"), family="B")
